@@ -117,7 +117,13 @@ func cmdCheck(args []string) int {
 	if *tier == "thorough" {
 		timeout = 60
 	}
-	outDir := filepath.Join(verifDir, "out", id)
+	// GOVC_SCRATCH (used by tools/selftest.sh to check several seeded copies in parallel): all run
+	// output — solver scripts, replay files, evidence — goes under that directory instead of /verif
+	outRoot := verifDir
+	if d := os.Getenv("GOVC_SCRATCH"); d != "" {
+		outRoot = d
+	}
+	outDir := filepath.Join(outRoot, "out", id)
 	os.RemoveAll(outDir)
 	os.MkdirAll(outDir, 0o755)
 
@@ -392,7 +398,7 @@ func cmdCheck(args []string) int {
 	// obligations for which a solver produced a model first: they are the most likely to replay
 	sort.SliceStable(failures, func(i, j int) bool { return failures[i].o.Result == "sat" && failures[j].o.Result != "sat" })
 	knownSeen := map[string]bool{}
-	replayDir := filepath.Join(verifDir, "replays", id)
+	replayDir := filepath.Join(outRoot, "replays", id)
 	os.RemoveAll(replayDir) // replay files are run output: only this run's are kept
 	var outLines []string
 	for i := range failures {
@@ -591,8 +597,8 @@ func cmdCheck(args []string) int {
 			"explanation":              "every obligation is a verification condition over symbolic inputs, arbitrary heap and unbounded loops (cut at invariants); obligations counts the generated obligations minus those of open known findings (known_open, reported as KNOWN-FINDING lines); discharged == obligations is required for exit 0",
 		},
 	}
-	os.MkdirAll(filepath.Join(verifDir, "evidence"), 0o755)
-	writeJSON(filepath.Join(verifDir, "evidence", id+".json"), ev)
+	os.MkdirAll(filepath.Join(outRoot, "evidence"), 0o755)
+	writeJSON(filepath.Join(outRoot, "evidence", id+".json"), ev)
 	fmt.Printf("property=%s tier=%s obligations=%d discharged=%d known_open=%d violations=%d wall=%.1fs\n", id, *tier, len(obls), discharged, knownOpen, violations, time.Since(start).Seconds())
 	if violations > 0 {
 		return 1
